@@ -1,5 +1,6 @@
 import copy
 from dataclasses import dataclass
+from decimal import Decimal
 from typing import Any, Optional, Tuple, Union
 
 from vtlengine import AST
@@ -55,7 +56,7 @@ from vtlengine.AST.Grammar.tokens import (
     VIRAL_ATTRIBUTE,
 )
 from vtlengine.DataTypes import SCALAR_TYPES_CLASS_REVERSE
-from vtlengine.Model import Component, Dataset
+from vtlengine.Model import Component, Dataset, Scalar
 
 nl = "\n"
 tab = "\t"
@@ -70,11 +71,12 @@ def _handle_literal(value: Union[str, int, float, bool]):
     elif isinstance(value, bool):
         return "true" if value else "false"
     elif isinstance(value, float):
-        decimal = str(value).split(".")[1]
-        if len(decimal) > 4:
-            return f"{value:f}".rstrip("0")
-        else:
-            return f"{value:g}"
+        # Plain decimal notation that reads back as the same value: the grammar has no exponent
+        # form, so neither str() ("1e-07") nor "%g" ("1e+06") nor "%f" (6 decimals) can be used.
+        text = format(Decimal(repr(value)), "f")
+        if "." not in text:
+            text += ".0"
+        return text
     return str(value)
 
 
@@ -283,6 +285,9 @@ class ASTString(ASTTemplate):
             argument_type = "dataset"
         elif isinstance(node.type_, Component):
             argument_type = "component"
+        elif isinstance(node.type_, Scalar):
+            # untyped "scalar" parameter (the AST holds a Scalar placeholder, not a type class)
+            argument_type = "scalar"
         else:
             argument_type = node.type_.__name__.lower()
 
@@ -724,7 +729,7 @@ class ASTString(ASTTemplate):
                 return f"{dataset}[{node.op} {body}]"
 
     def visit_RenameNode(self, node: AST.RenameNode) -> str:
-        return f"{node.old_name} to {node.new_name}"
+        return f"{_format_reserved_word(node.old_name)} to {_format_reserved_word(node.new_name)}"
 
     def visit_TimeAggregation(self, node: AST.TimeAggregation) -> str:
         if node.period_to_ref is not None:
